@@ -5,8 +5,14 @@ set -e
 cd /verif
 mkdir -p _work/bin ocaml/gen evidence
 python3 translate/regen.py || true
-tools/coqmake.sh 2>&1 | tail -40
+# the setup must not die on a theorem that no longer checks (the tree under /repo may already differ from
+# the one the generated files were committed for): every check rebuilds what it needs and reports
+set +e
+tools/coqmake.sh > _work/setup-coq.log 2>&1; CRC=$?
+set -e
+tail -40 _work/setup-coq.log
+[ $CRC -eq 0 ] || echo "setup: the Coq build reported errors (rc=$CRC, see _work/setup-coq.log); the checks will report what does not hold"
 for e in $(ls ocaml/*_driver.ml 2>/dev/null | sed 's|ocaml/||; s|_driver.ml||'); do
-  tools/build_ocaml.sh $e
+  tools/build_ocaml.sh $e || echo "setup: ocaml model driver $e not built (its check will report)"
 done
 echo setup-done
